@@ -3,6 +3,7 @@
 package ansi
 
 import (
+	"sync"
 	"math/rand"
 	"servitor/verifkit"
 	"strings"
@@ -186,6 +187,59 @@ func TestVerifLayout(t *testing.T) {
 		for _, w := range widths {
 			w := w
 			v.layout("SetLength", string(plain), w, 0, "", false, "…", func() string { return SetLength(string(plain), w, "…") })
+		}
+	}
+	if in.Random > 0 {
+		verifConcurrentLayout(out, rng, 1+in.Random/30)
+	}
+}
+
+/*
+	Layout from several goroutines at once, as the parallel building of posts does: every call works on its own
+	text and must return what it returns alone.  Each goroutine records its last results; they are judged like any
+	other call.
+*/
+func verifConcurrentLayout(out *verifkit.Trace, rng *rand.Rand, rounds int) {
+	type job struct {
+		text string
+		w    int
+	}
+	for round := 0; round < rounds; round++ {
+		jobs := make([]job, 8)
+		for i := range jobs {
+			jobs[i] = job{verifRandomText(rng, 10+rng.Intn(60), []int{0, 3, 8}[rng.Intn(3)]), 2 + rng.Intn(30)}
+		}
+		type result struct{ wrap, pad, dumb, indent string }
+		results := make([]result, len(jobs))
+		/* what each call returns alone */
+		alone := make([]result, len(jobs))
+		for i := range jobs {
+			alone[i] = result{Wrap(jobs[i].text, jobs[i].w), Pad(jobs[i].text, jobs[i].w), DumbWrap(jobs[i].text, jobs[i].w), Indent(jobs[i].text, "  ", true)}
+		}
+		var wg sync.WaitGroup
+		for i := range jobs {
+			i := i
+			wg.Add(1)
+			go func() {
+				defer wg.Done()
+				verifkit.Try(func() {
+					for k := 0; k < 300; k++ {
+						results[i] = result{Wrap(jobs[i].text, jobs[i].w), Pad(jobs[i].text, jobs[i].w), DumbWrap(jobs[i].text, jobs[i].w), Indent(jobs[i].text, "  ", true)}
+						if results[i] != alone[i] {
+							break /* keep the answer that differs from the one given alone: it is what gets judged */
+						}
+					}
+				})
+			}()
+		}
+		wg.Wait()
+		v := verifRun{out}
+		for i, j := range jobs {
+			i, j := i, j
+			v.layout("Wrap", j.text, j.w, 0, "", false, "", func() string { return results[i].wrap })
+			v.layout("Pad", j.text, j.w, 0, "", false, "", func() string { return results[i].pad })
+			v.layout("DumbWrap", j.text, j.w, 0, "", false, "", func() string { return results[i].dumb })
+			v.layout("Indent", j.text, 0, 0, "  ", true, "", func() string { return results[i].indent })
 		}
 	}
 }
